@@ -53,6 +53,24 @@ func wrapInt(x *Term, t types.Type) *Term {
 	return Sub(EMod(Add(x, h), m), h)
 }
 
+// wrapNear wraps a value known to lie within one period of the type's range (sum or difference of
+// two in-range values): an ite is exact there and far easier for the solvers than mod.
+func wrapNear(x *Term, t types.Type) *Term {
+	b := basicOf(t)
+	if b == nil {
+		return x
+	}
+	lo, hi, bits, _, ok := intRange(b, stdSizes)
+	if !ok {
+		return x
+	}
+	if x.IsInt() {
+		return wrapInt(x, t)
+	}
+	m := BigLit(pow2(bits))
+	return Ite(Lt(BigLit(hi), x), Sub(x, m), Ite(Lt(x, BigLit(lo)), Add(x, m), x))
+}
+
 func isUnsigned(t types.Type) bool {
 	b := basicOf(t)
 	return b != nil && b.Info()&types.IsUnsigned != 0
@@ -164,9 +182,9 @@ func (ex *Exec) binop(st *State, fr *Frame, op token.Token, xv, yv Value, xt, rt
 	uns := isUnsigned(xt)
 	switch op {
 	case token.ADD:
-		return Scalar{wrapInt(Add(x, y), rt)}
+		return Scalar{wrapNear(Add(x, y), rt)}
 	case token.SUB:
-		return Scalar{wrapInt(Sub(x, y), rt)}
+		return Scalar{wrapNear(Sub(x, y), rt)}
 	case token.MUL:
 		return Scalar{wrapInt(Mul(x, y), rt)}
 	case token.QUO, token.REM:
@@ -290,7 +308,11 @@ func (ex *Exec) valuesEqual(st *State, a, b Value, t types.Type) *Term {
 		return And(Eq(x.Tag, y.Tag), Eq(x.Val, y.Val))
 	case SliceV:
 		y := b.(SliceV)
-		// only comparison with nil is legal
+		if ex.specEq {
+			// specification equality: same header (same backing array, window and capacity)
+			return And(Eq(x.Arr, y.Arr), Eq(x.Off, y.Off), Eq(x.Len, y.Len), Eq(x.Cap, y.Cap))
+		}
+		// in Go only comparison with nil is legal
 		if y.Arr.IsInt() && y.Arr.Int.Sign() == 0 {
 			return Eq(x.Arr, Zero)
 		}
